@@ -744,7 +744,9 @@ var localfsSizes = []int{0, 1, 16383, 16384, 16385}
 
 const localfsBig = 4 << 20
 
-func localfsData(seed uint64, n int) *localfsContent { return &localfsContent{Seed: seed, Len: n, Flip: -1} }
+func localfsData(seed uint64, n int) *localfsContent {
+	return &localfsContent{Seed: seed, Len: n, Flip: -1}
+}
 
 // localfsKeyAt builds a key of the given depth (number of directories above the object).
 func localfsKeyAt(top string, depth int, name string) string {
@@ -860,7 +862,7 @@ func localfsFamilyImm(r *Rand, tier string) []*localfsCase {
 		}
 		up(base, "ok")
 		c.Ops = append(c.Ops, localfsOp{Op: "fetch", Key: kh})
-		up(base, "ok") // same
+		up(base, "ok")                                // same
 		lean := n == localfsBig && tier != "thorough" // multi-megabyte contents: the essential variants only
 		if n > 0 {
 			up(localfsContent{Seed: seed, Len: n, Flip: n - 1}, "fail-unchanged") // different in the last byte
